@@ -888,6 +888,11 @@ class EmissionMonitor(Monitor):
             room = ep.conn._max_datagram_size
         self.flight_room[ep.name] = room
         self.batch_bytes[ep.name] = 0
+        # the endpoint's own anti-amplification budget for its current path (hooked state; used only to tell the
+        # mechanisms of a short Initial datagram apart, never to decide whether the limit was respected)
+        paths = getattr(ep.conn, "_network_paths", None) or []
+        self.own_budget = getattr(self, "own_budget", {})
+        self.own_budget[ep.name] = None if (not paths or paths[0].is_validated) else 3 * paths[0].bytes_received - paths[0].bytes_sent
 
     def on_deliver(self, ep, rec, from_addr, t, altered=False):
         key = (ep.name, from_addr)
@@ -931,7 +936,14 @@ class EmissionMonitor(Monitor):
             if ep.name == "server" and ae_initial and n < 1200:
                 key = (ep.name, rec.addr)
                 budget = 3 * self.received.get(key, 0) - self.sent.get(key, 0)
-                why = "amplification-budget-below-1200" if (key not in self.validated and budget < 1200) else "budget-sufficient"
+                room = self.flight_room.get(ep.name)
+                own = getattr(self, "own_budget", {}).get(ep.name)
+                if (key not in self.validated and budget < 1200) or (own is not None and own - self.batch_bytes.get(ep.name, 0) < 1200):
+                    why = "amplification-budget-below-1200"
+                elif room is not None and room - self.batch_bytes.get(ep.name, 0) < 1200:
+                    why = "congestion-window-below-1200"
+                else:
+                    why = "budget-sufficient"
                 self.soft_report(Violation("emission:server-ack-eliciting-initial-datagram-below-1200:" + why,
                                            "server datagram containing an ack-eliciting Initial packet is %d bytes (anti-amplification budget left for that address before sending: %s)" % (n, budget if key not in self.validated else "validated"),
                                            {"t": t, "views": [v.brief() for v in rec.views or []]}))
